@@ -170,6 +170,20 @@ func Combine[V any](s1, s2 Seq[V]) Seq[V] {
 	}
 }
 
+// Breakable runs s as a statement that an unlabelled break can target without
+// being a loop (a switch whose cases suspend): a Break raised inside s ends s
+// normally; every other signal passes through.
+func Breakable[V any](s Seq[V]) Seq[V] {
+	return func(c *co[V], k cont[V]) {
+		s(c, func(t contType, v V) {
+			if t == kBreak {
+				t = kNormal
+			}
+			k(t, v)
+		})
+	}
+}
+
 func seqOfK[V any](kt contType) Seq[V] {
 	return func(c *co[V], k cont[V]) {
 		k(kt, zero[V]())
